@@ -203,6 +203,7 @@ func main() {
 	r.Require("fd_max_negative", 300)
 	r.Require("fd_empty_input", 300)
 	r.Require("cl_enumerations", 100000)
+	r.Require("cl_graph_values_reused_after_init", 5000)
 	r.Require("cl_cliques_compared", 400000)
 	r.Require("cl_isolated_vertices", 20000)
 	r.Require("cl_empty_graph", 1000)
